@@ -25,6 +25,8 @@ def corpus():
         "run prop=C01 mode=users conc=3 dur=400 body=1 maxit=40 failevery=2 failkind=timefail",
         "run prop=C01 mode=users conc=3 dur=400 body=1 maxit=40 failevery=2 failkind=timeerr",
         "run prop=C01 mode=constant rate=6/50ms dur=300 conc=3 body=2 failevery=3 failkind=panicerr",
+        "run prop=C01 mode=users conc=2 dur=300 body=1 maxit=40 failevery=4 cleanupfail=2",            # a passing body with a failing cleanup is a passed invocation
+        "run prop=C01 mode=constant rate=6/50ms dur=300 conc=3 body=2 cleanupfail=3",
         "run prop=C01 mode=users conc=2 dur=300 body=2 maxit=30 failevery=3 pushgw=ok",
         "run prop=C01 mode=users conc=2 dur=300 body=2 maxit=30 failevery=3 pushgw=fail1",     # the first push is refused
     ] + __import__("vlib.props._plan", fromlist=["x"]).cli_corpus_for("C01")
